@@ -846,7 +846,9 @@ def render_item(d, it, repo_root, registry):
                 cls = find_closures(sf, it.body_open + 1, it.body_close)
                 for n, spec in d.closures.items():
                     if n < 1 or n > len(cls):
-                        raise ExtractError("anchor lost: fn %s has %d closures, contract names closure %d" % (it.name, len(cls), n))
+                        # the annotated closure is gone: verify without its annotation (the body decides)
+                        rule_hits["closure%d-missing" % n] = 1
+                        continue
                     p0, p1, body, bend, block = cls[n - 1]
                     cind = indent_of(sf, p0)
                     if spec.get("sig"):
